@@ -13,6 +13,15 @@ FAULT_KINDS = {
 }
 
 
+FAULT_KINDS_QUICK = FAULT_KINDS - {'read', 'listdir', 'os.open'}
+FAULT_QUICK_VARIANTS = (
+    'add_object:new@', 'add_streamed:multichunk@', 'seek_read:reloosen@', 'pack_all_loose:yes:clpp=1@',
+    'pack_all_loose:no:clpp=1:multipack@', 'clean_storage@', 'add_objects_to_pack:z=1:nh1@',
+    'add_objects_to_pack:z=0:nh1:multipack@', 'import:diff-hash:tmb-small@', 'delete:both-forms@', 'repack:keep@',
+    'add_streamed_object_to_pack:big@',
+)
+
+
 def errnames_for(kind: str, tier: str):
     if kind.startswith('sql:'):
         return ['SQL']
@@ -118,13 +127,14 @@ def run_fault_variant(case):  # noqa: C901
         if dry.get('blind'):
             return common.case_result(name, False, inconclusive=f'shim blind spot in {name}: {dry["blind"][:3]}')
         events = dry['events']
-        elig = [e for e in events if e['kind'] in FAULT_KINDS]
+        kinds = FAULT_KINDS if tier == 'thorough' else FAULT_KINDS_QUICK
+        elig = [e for e in events if e['kind'] in kinds]
         counters['variants'] += 1
         counters['fault-points'] += len(elig)
         is_repack = case['variant'].get('is_repack')
         for k, ev in enumerate(elig):
             for errname in errnames_for(ev['kind'], tier):
-                rundir, st, res = crashlab.fault_run(tmpl, k, errname, FAULT_KINDS)
+                rundir, st, res = crashlab.fault_run(tmpl, k, errname, kinds)
                 try:
                     if st != 'ok' or res is None:
                         return common.case_result(name, False, counters=counters, violations=vios,
@@ -184,4 +194,6 @@ run_fault_variant.case_timeout = 2400
 
 def variant_cases(ctx, prop, mode, default_fsync_only=False):
     vs = variants.variants(ctx.tier, default_fsync_only=default_fsync_only)
+    if mode == 'fault' and ctx.tier == 'quick':
+        vs = [v for v in vs if v['name'].startswith(FAULT_QUICK_VARIANTS)]
     return [{'prop': prop, 'variant': v, 'mode': mode, 'tier': ctx.tier, 'name': v['name'], 'timeout': 2400} for v in vs]
